@@ -26,6 +26,19 @@ func c09hostile(c *core.Ctx) {
 		return
 	}
 	streams := codec.HostileStreams(c.Thorough())
+	// plus: the beginning of a large PUBLISH (remaining lengths below, at and above what the
+	// 16 KiB incoming ring can ever hold complete: ring size minus one 8 KiB read block), cut
+	// after 100 bytes, after 8200 bytes and ten bytes before its end.  The connection ends in
+	// the middle of a packet: an abnormal end, the will is due.  (Length bytes and payload
+	// contain no 0xE? byte, so no DISCONNECT can be seen anywhere.)
+	for _, r := range []int{8100, 8400, 12100, 16000, 16500, 40000} {
+		full := refcodec.Encode(&refcodec.Packet{Type: refcodec.PUBLISH, Topic: []byte("q"), Payload: []byte(big(r-3, 9))})
+		for _, k := range []int{100, 8200, len(full) - 10} {
+			if k < len(full) {
+				streams = append(streams, full[:k])
+			}
+		}
+	}
 	// plus: each stream behind a complete QoS 0 PUBLISH (the processor is busy when it arrives)
 	pre := refcodec.Encode(&refcodec.Packet{Type: refcodec.PUBLISH, Topic: []byte("q"), Payload: []byte("d")})
 	n := 0
